@@ -65,6 +65,39 @@ def run_plan(eng, plan, prop):
     return out
 
 
+def run_plan_iso(eng, plan, prop):
+    """run_plan in a forked child of this process.  Used by engines that set ISOLATE = True: their subject is
+    process-global state (patched torch internals), and a defect there must not leak from one run into the next,
+    or runs would stop being a pure function of their plan."""
+    import pickle
+    if not getattr(eng, "ISOLATE", False):
+        return run_plan(eng, plan, prop)
+    if hasattr(eng, "preload"):
+        eng.preload()
+    rd, wr = os.pipe()
+    pid = os.fork()
+    if pid == 0:
+        try:
+            os.close(rd)
+            out = run_plan(eng, plan, prop)
+            d = {k: getattr(out, k) for k in Outcome.__slots__}
+            with os.fdopen(wr, "wb") as f:
+                pickle.dump(d, f)
+        finally:
+            os._exit(0)
+    os.close(wr)
+    with os.fdopen(rd, "rb") as f:
+        data = f.read()
+    os.waitpid(pid, 0)
+    out = Outcome()
+    if not data:
+        out.status, out.oracle, out.detail = HARNESS, "harness", "isolated child died without a result"
+        return out
+    for k, v in pickle.loads(data).items():
+        setattr(out, k, v)
+    return out
+
+
 # ---------------------------------------------------------------------------------------------
 # batch on a pool
 
@@ -83,7 +116,7 @@ def _work(args):
         except Exception:
             agg["harness"].append((idx, seed, None, "generate: " + traceback.format_exc()[-2000:]))
             continue
-        out = run_plan(eng, plan, prop)
+        out = run_plan_iso(eng, plan, prop)
         faulthandler.cancel_dump_traceback_later()
         agg["runs"] += 1
         if out.status == OK:
